@@ -86,3 +86,23 @@ Theorem C09_canonical_edges :
           goto aut q X = Some q' -> items (st aut q') = closure g (advance g (items (st aut q)) X)).
 Proof. exact LR0Build.build_canonical_edges. Qed.
 Print Assumptions C09_canonical_edges.
+
+From YG Require Import LRBase CompleteDriver LR0Build LASuperset Pipeline Front WfGrammar YParser EndToEnd EndToEndWf.
+Close Scope Z_scope.
+Open Scope nat_scope.
+
+(* from the bytes of the grammar file: the automaton on which the tables of a text are built is the canonical LR(0) collection of the grammar object read from it - state 0 is the closure of the start item, a transition on X leads to the closure of the advanced items, every symbol after a dot has a transition, no item set occurs twice, every state is reachable from state 0 *)
+Theorem C09_from_the_text :
+  forall (s : list Ascii.ascii) (b : built) (t : tables),
+         generate_text s = GOk b t ->
+         let g := gi_rules (b_gi b) in
+         let aut := t_aut t in
+         items (st aut 0) = closure g [(0, 0)] /\
+         (forall q X q' : nat,
+          goto aut q X = Some q' -> items (st aut q') = closure g (advance g (items (st aut q)) X)) /\
+         (forall (q : nat) (it : item) (X : nat),
+          In it (items (st aut q)) -> next_sym g it = Some X -> exists q' : nat, goto aut q X = Some q') /\
+         (forall i j : nat, i < length aut -> j < length aut -> items (st aut i) = items (st aut j) -> i = j) /\
+         (forall q : nat, q < length aut -> exists gamma : list nat, path aut 0 gamma q).
+Proof. exact EndToEndWf.text_canonical. Qed.
+Print Assumptions C09_from_the_text.
